@@ -629,12 +629,14 @@ class ExcelInPython:
             else:
                 range_and_criteria_zip[-1].append(i)
 
+        # positions are tracked in a mask: the cell values themselves must not be used as markers,
+        # otherwise a selected cell holding 0 is dropped and a rejected one (None) reaches count_condition
+        selected = [True] * len(count_range)
         for [_range, criteria] in range_and_criteria_zip:
             for i in range(len(_range)):
                 if not criteria(_range[i]):
-                    count_range[i] = None
-        count_range = [i if count_condition(i) else None for i in count_range]
-        return len(list(filter(None, count_range)))
+                    selected[i] = False
+        return len([i for i in range(len(count_range)) if selected[i] and count_condition(count_range[i])])
         
     def _network_days(self, date_start: datetime.datetime, date_end: datetime.datetime,
                       holidays: List[List[datetime.datetime]] | None = None):
